@@ -153,3 +153,34 @@ func StreamFrame(id, off uint64, data []byte, fin bool) []byte {
 	b = AppendVarint(b, uint64(len(data)))
 	return append(b, data...)
 }
+
+// AckFrame encodes an ACK frame (no ECN counts) for the given ranges (descending, disjoint, non-adjacent).
+func AckFrame(ranges []AckRange, delay uint64) []byte {
+	b := []byte{FtAck}
+	b = AppendVarint(b, ranges[0].Largest)
+	b = AppendVarint(b, delay)
+	b = AppendVarint(b, uint64(len(ranges)-1))
+	b = AppendVarint(b, ranges[0].Largest-ranges[0].Smallest)
+	for i := 1; i < len(ranges); i++ {
+		b = AppendVarint(b, ranges[i-1].Smallest-ranges[i].Largest-2)
+		b = AppendVarint(b, ranges[i].Largest-ranges[i].Smallest)
+	}
+	return b
+}
+
+// EmittedPacketNumbers returns, for 1-RTT packets emitted by side d, the largest packet number seen and
+// the packet numbers below it that never appeared on the wire (numbers the sender skipped).
+func (c *ConnTap) EmittedPacketNumbers(d Dir) (largest int64, skipped []uint64) {
+	c.w.mu.Lock()
+	defer c.w.mu.Unlock()
+	largest = -1
+	for pn := range c.EmittedPN[d][2] {
+		largest = max(largest, int64(pn))
+	}
+	for pn := uint64(0); int64(pn) < largest; pn++ {
+		if c.EmittedPN[d][2][pn] == 0 {
+			skipped = append(skipped, pn)
+		}
+	}
+	return largest, skipped
+}
